@@ -268,7 +268,7 @@ theorem selectingNext_ok (hE : EnvOK env G) {sh : Shared D L} {s : Selecting} (h
   unfold selectingNext
   refine selResOK_ite (fun _ => leafSpin _) fun _ => ?_
   refine selResOK_ite (fun _ => leafTo _ (cancel_inv h)) fun _ => ?_
-  refine selResOK_ite (fun _ => leafTo _ (cancel_inv (h.congr rfl rfl rfl rfl rfl))) fun _ => ?_
+  refine selResOK_ite (fun _ => leafTo _ (cancel_inv (h.congr rfl rfl rfl rfl rfl rfl))) fun _ => ?_
   refine selResOK_ite (fun _ => leafTo _ (cancel_inv h)) fun _ => ?_
   refine selResOK_ite (fun _ => selDownSpace_ok hE h hs hnt) fun _ => ?_
   refine selResOK_ite (fun _ => selMove_ok h hs _) fun _ => ?_
